@@ -47,6 +47,22 @@ class Counted(object):
         return self.pulls - 1
 
 
+class CountedIterable(object):
+    """the same endless source as an object that can be iterated again and again (no __next__ of its own): every iteration
+    continues the one count"""
+
+    def __init__(self, cap):
+        self.pulls = 0
+        self.cap = cap
+
+    def __iter__(self):
+        while True:
+            if self.pulls >= self.cap:
+                raise SourceOverrun()
+            self.pulls += 1
+            yield self.pulls - 1
+
+
 def width(v):
     if isinstance(v, dict):
         return max([len(v)] + [max(width(k), width(x)) for k, x in v.items()])
